@@ -435,6 +435,43 @@ def show_wf(w):
     return ",".join(ps) + "|" + ";".join(ss)
 
 
+def _vkey(v):
+    return json.dumps(v, sort_keys=True, default=str)
+
+
+def enc_token(t, table):
+    """preorder words of a token value for `tsave` of Drivers/C08.lean; plain values are numbered through `table`"""
+    tag = hx(t.tag)
+    if isinstance(t, ListToken):
+        return ["L", tag, str(len(t.value))] + [w for x in t.value for w in enc_token(x, table)]
+    if isinstance(t, ObjectToken):
+        return ["O", tag, str(len(t.value))] + [w for k, x in t.value.items() for w in [hx(k)] + enc_token(x, table)]
+    if isinstance(t, JobToken):
+        return ["J", tag, "0", str(int(t.recoverable)), str(len(t.value.inputs))] + [
+            w for k, x in t.value.inputs.items() for w in [hx(k)] + enc_token(x, table)]
+    stored = {"status": t.value.value} if isinstance(t, TerminationToken) else t.value      # TerminationToken._save_value
+    return ["P", tag, str(table.setdefault(_vkey(stored), len(table))), str(int(t.recoverable))]
+
+
+async def rows_tree(conn, tid, table):
+    """what the `token` / `recoverable` tables hold below a root row, read with plain SQL and json (no StreamFlow loader involved)"""
+    async with conn.execute("SELECT type, tag, value FROM token WHERE id = ?", (tid,)) as cur:
+        row = await cur.fetchone()
+    if row is None:
+        return "?"
+    async with conn.execute("SELECT 1 FROM recoverable WHERE id = ?", (tid,)) as cur:
+        rcv = "1" if await cur.fetchone() is not None else "0"
+    cls, tag, value = row[0].rsplit(".", 1)[-1], hx(row[1]), json.loads(row[2])
+    if cls == "ListToken":
+        return f"L({tag},{rcv},[" + ",".join([await rows_tree(conn, i, table) for i in value]) + "])"
+    if cls == "ObjectToken":
+        return f"O({tag},{rcv},{{" + ",".join([hx(k) + "=" + await rows_tree(conn, i, table) for k, i in value.items()]) + "})"
+    if cls == "JobToken":
+        inputs = value["job"]["params"]["inputs"]
+        return f"J({tag},{rcv},{{" + ",".join([hx(k) + "=" + await rows_tree(conn, i, table) for k, i in inputs.items()]) + "})"
+    return f"P({tag},{rcv},{table.get(_vkey(value), '?')})"
+
+
 class ModelTrace:
     """replays on the record model what is done to the real workflow: only what is new since the last call is sent"""
 
@@ -591,6 +628,12 @@ async def _one_case(seed, context):
             p.persistent_id is not None for p in w4.ports.values()):
         res["diffs"].append(("WorkflowBuilder(deep_copy=True)", "persistent_id", "a copied entity kept a persistent id"))
     trace.loaded(w3, w4)
+    # the stored rows of every token value against the Lean model of `Token.save`
+    table = {}
+    async with db.connection as conn:
+        for t in tokens:
+            trace.lines.append("tsave " + " ".join(enc_token(t, table)))
+            trace.expect.append(await rows_tree(conn, t.persistent_id, table))
     res["model"] = (trace.lines, trace.expect)
     return res
 
@@ -701,6 +744,8 @@ class C08(Property):
         for ln, gl, e, sd in zip(lines, got, expect, owner):
             if ln == "wsave":
                 ctx.count("hypotheses:" + e)
+            if ln.startswith("tsave"):
+                ctx.count("token-rows:" + e[0])
             if gl != e and sd not in bad:
                 bad.add(sd)
                 ctx.disagree("record model vs Workflow.save/load", f"workflow seed {sd}, `{ln}`: code {e[:300]!r}, Lean model {gl[:300]!r}", {"seed": sd})
